@@ -4,23 +4,53 @@
 (* A scenario is a fault-free run with its counted fault points (measured   *)
 (* from the implementation by a probe run):                                 *)
 (*   alloc   : number of operator new calls during the call                 *)
-(*   failat / throwat  : bytes of the input document (stream load)          *)
+(*   failat / throwat  : bytes of the input document (stream load); failat  *)
+(*             ends the data like a short file, throwat is an I/O error     *)
+(*             (the stream buffer throws, the stream gets badbit)           *)
 (*   ofailat / othrowat: bytes produced (stream save)                       *)
 (* Outcome alphabet of one run with the fault injected at point k:          *)
 (*   "none" (returned normally) | "exception" | "terminate" | "hang" | "crash"; *)
-(* plus the number of blocks still allocated after everything was destroyed. *)
+(* plus the number of blocks still allocated after everything was destroyed *)
+(* and `hits`, how often the injected stream fault was actually reached.    *)
 (***************************************************************************)
 EXTENDS Naturals, Sequences, TLC
 
 Kinds == {"alloc", "failat", "throwat", "ofailat", "othrowat"}
+Archives == {"msgpack", "json", "xml", "csv"}
 
 \* does the fault point k exist in a run that has n points of that kind?
 Hits(k, n) == k < n
 
-\* A: what the property allows
-OutcomeAllowed(kind, k, n, outcome, leak, probeOutcome) ==
+\* Text documents may end in insignificant white space: cutting only that leaves a complete document.
+Whitespace == {32, 9, 10, 13}
+RECURSIVE SigLen(_)
+SigLen(d) == IF d = <<>> THEN 0 ELSE IF d[Len(d)] \in Whitespace THEN SigLen(SubSeq(d, 1, Len(d) - 1)) ELSE Len(d)
+
+\* MessagePack is prefix-free; so are JSON and XML documents whose root is an object/array/element (every strict prefix that
+\* cuts a significant byte is malformed).  CSV is not: a prefix that ends at a row boundary is a shorter document.
+PrefixFree(arch) == arch \in {"msgpack", "json", "xml"}
+
+\* number of input positions at which ending the data must be rejected
+MustRejectBelow(arch, doc) == IF arch = "msgpack" THEN Len(doc) ELSE IF PrefixFree(arch) THEN SigLen(doc) ELSE 0
+
+\* A: what the property allows for one run
+\*   n      = number of fault points of this kind in the fault-free run (allocations / input bytes / output bytes)
+\*   reject = MustRejectBelow for input faults
+OutcomeAllowed(kind, k, n, reject, outcome, leak, hits, probeOutcome) ==
   /\ outcome \in {"none", "exception"}            \* never terminate / hang / crash
   /\ leak = 0                                      \* nothing is leaked, everything stayed destructible
-  /\ IF Hits(k, n) THEN outcome = "exception"     \* the failure reaches the caller (MessagePack is prefix-free; a short write is an error)
-     ELSE outcome = probeOutcome                   \* a fault point that is never reached changes nothing
+  /\ CASE kind = "alloc" -> IF Hits(k, n) THEN outcome = "exception" ELSE outcome = probeOutcome
+       [] kind \in {"ofailat", "othrowat"} -> IF Hits(k, n) THEN outcome = "exception"          \* a failed write is an error
+                                              ELSE outcome = probeOutcome
+       [] kind = "throwat" -> IF hits > 0 \/ k < reject THEN outcome = "exception"               \* an I/O error reaches the caller
+                              ELSE outcome = probeOutcome
+       [] kind = "failat" -> IF k < reject THEN outcome = "exception"                            \* truncated input is rejected
+                             ELSE IF hits = 0 THEN outcome = probeOutcome                        \* the loader never got that far
+                             ELSE TRUE                                                           \* a shorter, complete document
+
+Why(kind, k, n, reject, outcome, leak, hits, probeOutcome) ==
+  IF outcome \notin {"none", "exception"} THEN outcome
+  ELSE IF leak # 0 THEN "leak"
+  ELSE IF outcome = "none" THEN "fault did not reach the caller as an exception"
+  ELSE "unreached fault point changed the outcome"
 =============================================================================
